@@ -81,14 +81,11 @@ func zzPattern(m int, pk int, cs, norm bool) []rune {
 }
 
 func zzSlab(mode int) *util.Slab {
-	switch mode {
-	case 0:
+	if mode == 0 {
 		return nil
 	}
-	// small slab with arbitrary stale contents
-	c16 := zzv.Choose(0, zzv.CfgInt("slabmax16"))
-	c32 := zzv.Choose(0, zzv.CfgInt("slabmax32"))
-	s := util.MakeSlab(c16, c32)
+	// slab of the configured capacities with arbitrary stale contents
+	s := util.MakeSlab(zzv.CfgInt("c16"), zzv.CfgInt("c32"))
 	for i := range s.I16 {
 		s.I16[i] = zzv.Int16()
 	}
@@ -138,6 +135,17 @@ func zzInit() {
 	Init(scheme)
 }
 
+// zzAt reads text[p] for a possibly out-of-range p without branching on p (0 when out of range).
+func zzAt(text []rune, p int) rune {
+	var r rune
+	for i := range text {
+		if i == p {
+			r = text[i]
+		}
+	}
+	return r
+}
+
 // zzCheckPositions: positions (in either order) are M distinct, strictly monotone indices inside
 // [start,end) each holding the corresponding pattern character.
 func zzCheckPositions(text []rune, pat []rune, pos []int, start, end int, cs, norm bool) bool {
@@ -154,19 +162,16 @@ func zzCheckPositions(text []rune, pat []rune, pos []int, start, end int, cs, no
 			desc = false
 		}
 	}
-	if !asc && !desc {
-		return false
-	}
-	ok := true
+	ok := asc || desc
 	for k := 0; k < m; k++ {
 		p := pos[k]
 		if !asc {
 			p = pos[m-1-k]
 		}
 		if p < start || p >= end || p < 0 || p >= len(text) {
-			return false
+			ok = false
 		}
-		if zzFold(text[p], cs, norm) != pat[k] {
+		if zzFold(zzAt(text, p), cs, norm) != pat[k] {
 			ok = false
 		}
 	}
